@@ -74,7 +74,8 @@ def run(chk):
             chk.nontriv(("pfor", s, e, P))
     if quick is False:
         chk.exhaustive = True
-    chk.sample({"parallel_for": "start 0 end 10 P 3", "slices": impl[cases.index((0, 10, 3))]})
+    if cases:
+        chk.sample({"parallel_for": "start 0 end 10 P 3", "slices": impl[cases.index((0, 10, 3))]})
     # ---- (2) concurrent queries ------------------------------------------------------------------------
     cs = CaseSet("c14")
     lines = []
